@@ -6,8 +6,10 @@ package main
 // C07, C08, C14, C18.
 
 import (
+	"regexp"
 	"fmt"
 	"go/ast"
+	"go/constant"
 	"go/token"
 	"go/types"
 	"sort"
@@ -112,6 +114,18 @@ func callSitesOf(p *Prog, in *ssa.Function, target *ssa.Function) []*callSite {
 
 // ---- value description ----
 
+// descParamLabel: when set, parameters are described by these labels (symmetry check of
+// comparators: the two operands are told apart) and range elements name what is ranged over.
+var descParamLabel map[*ssa.Parameter]string
+
+// descSwapSides: fields a and b of pair structs change places (symmetry check only).
+var descSwapSides bool
+
+var pairSideRE = regexp.MustCompile(`[A-Za-z]+(Pair|State)\.(a|b)$`)
+
+// descSymCallees: predicates already found symmetric (symmetry check only).
+var descSymCallees map[*ssa.Function]bool
+
 func descValue(v ssa.Value, depth int) string {
 	if depth > 4 {
 		return typeShort(v.Type())
@@ -123,6 +137,9 @@ func descValue(v ssa.Value, depth int) string {
 		}
 		return x.Value.ExactString()
 	case *ssa.Parameter:
+		if l, ok := descParamLabel[x]; ok {
+			return l
+		}
 		return "param:" + typeDesc(x.Type())
 	case *ssa.UnOp:
 		if x.Op == token.MUL {
@@ -154,6 +171,11 @@ func descValue(v ssa.Value, depth int) string {
 		case *ssa.TypeAssert:
 			return "ok(type-assert)"
 		case *ssa.Next:
+			if descParamLabel != nil {
+				if rg, ok := t.Iter.(*ssa.Range); ok {
+					return fmt.Sprintf("range-elem#%d(%s)", x.Index, descValue(rg.X, depth+1))
+				}
+			}
 			return "range-elem:" + typeShort(x.Type())
 		case *ssa.Call:
 			return fmt.Sprintf("result%d(%s)", x.Index, descCall(t, depth+1))
@@ -206,6 +228,13 @@ func descCall(c *ssa.Call, depth int) string {
 	for _, a := range com.Args {
 		args = append(args, descValue(a, depth+1))
 	}
+	if f := com.StaticCallee(); f != nil && descSymCallees[f] && len(args) >= 2 {
+		// a predicate known to treat its two operands alike: one spelling of the call
+		n := len(args)
+		if args[n-2] > args[n-1] {
+			args[n-2], args[n-1] = args[n-1], args[n-2]
+		}
+	}
 	return name + "(" + strings.Join(args, ",") + ")"
 }
 
@@ -240,7 +269,46 @@ func descCond(cond ssa.Value, val bool) string {
 			if !val {
 				op = negOp(op)
 			}
-			x, y := descValue(bo.X, 0), descValue(bo.Y, 0)
+			bx, by := bo.X, bo.Y
+			// one spelling for emptiness tests: constant on the right, len(e) < 1 / <= 0 as == 0,
+			// len(e) >= 1 / > 0 as != 0, and len(s) ==/!= 0 of a string as a comparison with ""
+			if _, ok := bx.(*ssa.Const); ok && isLenCall(by) {
+				bx, by = by, bx
+				switch op {
+				case token.LSS:
+					op = token.GTR
+				case token.GTR:
+					op = token.LSS
+				case token.LEQ:
+					op = token.GEQ
+				case token.GEQ:
+					op = token.LEQ
+				}
+			}
+			strEmpty, zero := "", false
+			if k, ok := by.(*ssa.Const); ok && isLenCall(bx) && k.Value != nil {
+				if n, isInt := constant.Int64Val(constant.ToInt(k.Value)); isInt {
+					switch {
+					case n == 1 && op == token.LSS, n == 0 && op == token.LEQ:
+						op, n, zero = token.EQL, 0, true
+					case n == 1 && op == token.GEQ, n == 0 && op == token.GTR:
+						op, n, zero = token.NEQ, 0, true
+					}
+					if (op == token.EQL || op == token.NEQ) && n == 0 {
+						arg := bx.(*ssa.Call).Common().Args[0]
+						if bt, ok := arg.Type().Underlying().(*types.Basic); ok && bt.Info()&types.IsString != 0 {
+							strEmpty = descValue(arg, 0)
+						}
+					}
+				}
+			}
+			x, y := descValue(bx, 0), descValue(by, 0)
+			if zero {
+				y = "0"
+			}
+			if strEmpty != "" {
+				x, y = `""`, strEmpty
+			}
 			// canonical operand order for symmetric operators
 			if (op == token.EQL || op == token.NEQ) && x > y {
 				x, y = y, x
@@ -253,6 +321,15 @@ func descCond(cond ssa.Value, val bool) string {
 		return "!" + d
 	}
 	return d
+}
+
+func isLenCall(v ssa.Value) bool {
+	c, ok := v.(*ssa.Call)
+	if !ok {
+		return false
+	}
+	b, ok := c.Common().Value.(*ssa.Builtin)
+	return ok && b.Name() == "len" && len(c.Common().Args) == 1
 }
 
 // isLoopCond: the If is the condition of a range/for loop (its block is a loop
@@ -277,25 +354,100 @@ func isLoopCond(b *ssa.BasicBlock) bool {
 // guardSet: normalised controlling conditions of instruction in (conditions of
 // loops excluded), sorted.
 func guardSet(in ssa.Instruction) []string {
+	return guardSetWithin(in, nil)
+}
+
+// guardSetWithin: only the conditions tested in the given blocks (nil: all).
+func guardSetWithin(in ssa.Instruction, within map[*ssa.BasicBlock]bool) []string {
 	fn := in.Parent()
 	set := map[string]bool{}
+	cmp := map[string]constCmp{}
 	for _, b := range fn.Blocks {
 		i := ifOf(b)
-		if i == nil || isLoopCond(b) {
+		if i == nil || isLoopCond(b) || (within != nil && !within[b]) {
 			continue
 		}
 		for k := range b.Succs {
 			if edgeDominates(b, k, in.Block()) {
-				set[descCond(i.Cond, k == 0)] = true
+				d := descCond(i.Cond, k == 0)
+				set[d] = true
+				if other, c, eq, ok := constCompare(i.Cond, k == 0); ok {
+					cmp[d] = constCmp{other, c, eq}
+				}
 			}
+		}
+	}
+	// `X == c1` implies `X != c2` for every other constant: the disequalities a switch
+	// collects from the cases in front of the matching one say nothing (case order is free)
+	eqOf := map[ssa.Value]map[string]bool{}
+	for _, cc := range cmp {
+		if cc.eq {
+			eqOf[cc.other] = map[string]bool{cc.c: true}
+		}
+	}
+	// the same for `case c1, c2:`: the block is entered over edges that all say X == ci
+	for d := in.Block(); d != nil; d = d.Idom() {
+		var altOther ssa.Value
+		alts := map[string]bool{}
+		allEq := true
+		for _, e := range controllingEdges(d) {
+			if isLoopCond(e.b) {
+				allEq = false
+				break
+			}
+			other, c, eq, ok := constCompare(ifOf(e.b).Cond, e.k == 0)
+			if !ok || !eq || (altOther != nil && other != altOther) {
+				allEq = false
+				break
+			}
+			altOther = other
+			alts[c] = true
+		}
+		if allEq && altOther != nil && len(alts) > 1 && eqOf[altOther] == nil {
+			eqOf[altOther] = alts
 		}
 	}
 	var out []string
 	for k := range set {
+		if cc, ok := cmp[k]; ok && !cc.eq {
+			if cs, has := eqOf[cc.other]; has && !cs[cc.c] {
+				continue
+			}
+		}
 		out = append(out, k)
 	}
 	sort.Strings(out)
 	return out
+}
+
+type constCmp struct {
+	other ssa.Value
+	c     string
+	eq    bool
+}
+
+// constCompare: cond (taken as val) is `other == const` or `other != const`.
+func constCompare(cond ssa.Value, val bool) (other ssa.Value, c string, eq bool, ok bool) {
+	cnd, neg := stripNot(cond)
+	if neg {
+		val = !val
+	}
+	bo, isB := cnd.(*ssa.BinOp)
+	if !isB || (bo.Op != token.EQL && bo.Op != token.NEQ) {
+		return nil, "", false, false
+	}
+	x, y := bo.X, bo.Y
+	if _, isC := x.(*ssa.Const); isC {
+		x, y = y, x
+	}
+	k, isC := y.(*ssa.Const)
+	if !isC || k.Value == nil {
+		return nil, "", false, false
+	}
+	if _, both := x.(*ssa.Const); both {
+		return nil, "", false, false
+	}
+	return x, k.Value.ExactString(), (bo.Op == token.EQL) == val, true
 }
 
 // orGuards: short-circuit `a || b` makes the target block reachable over two
@@ -305,11 +457,18 @@ func guardSet(in ssa.Instruction) []string {
 func orGuardSet(in ssa.Instruction) string {
 	b := in.Block()
 	var alts []string
+	sides := map[*ssa.BasicBlock]int{}
 	for _, e := range controllingEdges(b) {
 		if isLoopCond(e.b) {
 			continue
 		}
 		alts = append(alts, descCond(ifOf(e.b).Cond, e.k == 0))
+		sides[e.b] |= 1 << e.k
+		if sides[e.b] == 3 {
+			// reached over both edges of one test: a join behind an if/switch, entered
+			// whatever the tests say; the list of edges would only spell the case order
+			return "*"
+		}
 	}
 	sort.Strings(alts)
 	return strings.Join(alts, " || ")
@@ -317,12 +476,19 @@ func orGuardSet(in ssa.Instruction) string {
 
 var _ = types.Typ
 
-
 // fieldPathDesc: the field with the fields it is reached through, outermost
 // first: ab.a.groups -> "panos.rulesPair.a>panos.vsysInfo.groups".  The path
 // distinguishes the device side from the target side of a pair (a vs b).
 func fieldPathDesc(fa *ssa.FieldAddr, d int) string {
 	name := fieldName(fa)
+	if descSwapSides {
+		name = pairSideRE.ReplaceAllStringFunc(name, func(m string) string {
+			if strings.HasSuffix(m, ".a") {
+				return m[:len(m)-1] + "b"
+			}
+			return m[:len(m)-1] + "a"
+		})
+	}
 	if d > 2 {
 		return name
 	}
@@ -338,7 +504,6 @@ func fieldPathDesc(fa *ssa.FieldAddr, d int) string {
 	}
 	return name
 }
-
 
 // typeDesc: typeShort, but a map whose key is a struct type of the module is
 // written with the key's field names, map[cisco.routeDst{vrf,prefix}]...: what
